@@ -26,6 +26,12 @@ CLAIMED = {
  "C06": ("other", "SSA must-facts gates + intra-procedural value-flow (which data feeds which comparison) + total-loop shape + error discipline",
    "Decides that each authority check guards the effects it is meant to guard and is a check of the right data: the origin check (Host field of GetId(activity) vs Host field of ToId(each object), total loop) precedes every effect of Update/Delete; Accept's verification reads the Follow from the local Database and checks actor and objects on that stored value before 'following' is touched; Undo's application callback runs only after every actor of every fetched object was looked up in the set of the Undo's own actors; the block check receives an id derived from each actor element.",
    "Value flow is an over-approximation (absence of a flow is exact). Host-string semantics beyond the choice of the Host field are not decided. Trusted: go/types, go/ssa, checker engines E1/E2/E4/E9.", "DESIGN.md §4 C06"),
+ "C02": ("other", "intra-procedural value-flow graph (exists-flow and cut queries) + must-facts depth guard + in-place-filter index discipline + error discipline",
+   "Set equality over federation graphs is not decided. Decided on all SSA paths: each of to/bto/cc/bcc/audience flows into the recipient list, and from there only through filterURLs(·, IsPublic) into anything looked up or dereferenced; IsPublic knows both spellings and the in-place filter cannot skip an element; dereference and recursion in resolveActors happen only where the depth limit has not been reached, with depth+1 passed on; a failed dereference is skipped and its error cannot reach the result; every success return of prepare is dedupeIRIs(stored ∪ remote inboxes, sender's inbox); exactly one BatchDeliver per delivery, reachable only through deliverToRecipients.",
+   "Value flow over-approximates (absence of a flow is exact; presence is a necessary condition). Trusted: go/types, go/ssa, checker engines E1/E2/E4/E9.", "DESIGN.md §4 C02"),
+ "C03": ("other", "SSA dominance (strip ≺ serialise on the same value) + total-loop shape + addressing-kind value flow + who-may-call rule",
+   "Decides necessary structural conditions on all paths: prepare strips bto/bcc from the activity on every success return after having read them; Deliver sends that same value; the transport is reachable only through deliverToRecipients; both strip functions clear both kinds on the value and on every element of object in a loop that cannot be left early (the handler's recursively, dominating Serialize of the same value); in wrapInCreate/normalizeRecipients no value of one addressing kind is appended to a property of another kind, membership guards consult the receiver's own set, and fresh properties are installed. The payload bytes are not examined.",
+   "Relies on the generated Set…(nil) removing the member (C01/C12). Value flow over-approximates. Trusted: go/types, go/ssa, checker engines E1/E2/E4.", "DESIGN.md §4 C03"),
 }
 NOT_YET = {}
 ALL = ["C%02d" % i for i in range(1, 21)]
